@@ -284,9 +284,71 @@ def r15_5(ctx: Ctx):
                "the walk recurses once per atom reached: chains of a few thousand atoms exceed the interpreter's "
                "recursion limit (RecursionError instead of an answer)", node=(fn or f).node)
     # the answer compares the number of reached atoms with the number of atoms
+    from ..pat import find as pfind, has as phas
+    atoms_p = f.params[0]
     rets = [n for n in walk_no_nested(f.node) if isinstance(n, ast.Return)]
-    ok = bool(rets) and all(isinstance(r.value, ast.Compare) and "len(" in norm(r.value) and "atoms" in norm(r.value)
-                            for r in rets if r.value is not None and not isinstance(r.value, ast.Constant))
+    calls_w = pfind(f.node, "V_walk(%s, 0, V_acc)" % atoms_p)
+    ok = False
+    if calls_w and len(rets) == 1:
+        acc = calls_w[0][1]["V_acc"]
+        ok = norm(rets[0].value).replace(" ", "") in (("len(%s)==len(%s)" % (acc, atoms_p)), ("len(%s)==len(%s)" % (atoms_p, acc))) \
+            and any(isinstance(s_, (ast.Assign, ast.AnnAssign)) and norm(s_.targets[0] if isinstance(s_, ast.Assign) else s_.target) == acc
+                    and norm(s_.value) == "[]" for s_ in f.node.body) and rets[0].lineno > calls_w[0][0].lineno
+        walker = ctx.repo.func(calls_w[0][1]["V_walk"], required=False)
+        if walker is not None:
+            ctx.seen(walker)
+            _worklist(ctx, walker)
     ctx.ob("R15.5", f, rets[-1] if rets else "result", ok,
            "the answer is 'every atom was reached' (count of reached atoms == number of atoms)",
            node=rets[-1] if rets else f.node)
+
+
+def _worklist(ctx: Ctx, w: Func, rule="R15.5"):
+    """The reachability walk: seed the start atom, then repeatedly take an atom and, for each bonded atom, skip it
+    when already reached, otherwise record it AND schedule it."""
+    from ..pat import find as pfind
+    atoms_p, start_p, acc_p = w.params[:3]
+    seed = pfind(w.node, "if %s not in %s:\n    %s.append(%s)" % (start_p, acc_p, acc_p, start_p))
+    ctx.ob(rule, w, seed[0][0] if seed else "seed", bool(seed), "the start atom is recorded as reached (once)", node=seed[0][0] if seed else w.node)
+    loops = [n_ for n_ in w.node.body if isinstance(n_, ast.While)]
+    if not loops:
+        ctx.ob(rule, w, "worklist loop", True, "the walk is not a worklist loop; its logic is not decided on this tree", undecided=True)
+        return
+    wl = norm(loops[0].test)
+    init = pfind(w.node, "%s = [%s]" % (wl, start_p)) or pfind(w.node, "%s = deque([%s])" % (wl, start_p))
+    take = [b_["V_c"] for _, b_ in pfind(loops[0], "V_c = %s.pop()" % wl)] + [b_["V_c"] for _, b_ in pfind(loops[0], "V_c = %s.popleft()" % wl)]
+    ctx.ob(rule, w, loops[0], bool(init) and len(take) == 1 and isinstance(loops[0].test, ast.Name),
+           "the worklist starts with the start atom and the loop takes one atom per iteration until it is empty", node=loops[0])
+    if len(take) != 1:
+        return
+    cur = take[0]
+    inner = [n_ for n_ in loops[0].body if isinstance(n_, ast.For) and norm(n_.iter) == "%s[%s].bonds" % (atoms_p, cur)]
+    if not inner:
+        ctx.ob(rule, w, "neighbour loop", False, "every bonded atom of the atom taken is examined -- loop over its bonds not found", node=loops[0])
+        return
+    nb = norm(inner[0].target)
+    n = 0
+    for p in enum_paths(inner[0].body):
+        reached = None
+        for t, o in p.conds():
+            tt = norm(t).replace(" ", "")
+            if tt == ("%sin%s" % (nb, acc_p)):
+                reached = o
+            elif tt == ("%snotin%s" % (nb, acc_p)):
+                reached = not o
+        rec = [s_ for s_ in p.stmts() if norm(s_) == "%s.append(%s)" % (acc_p, nb)]
+        sch = [s_ for s_ in p.stmts() if norm(s_) in ("%s.append(%s)" % (wl, nb), "%s.appendleft(%s)" % (wl, nb))]
+        n += 1
+        if reached is None:
+            ok = False
+            why = "the path does not test whether the bonded atom was reached already"
+        elif reached:
+            ok = not rec and not sch
+            why = "an atom reached before is recorded or scheduled again"
+        else:
+            ok = len(rec) == 1 and len(sch) == 1
+            why = "a newly reached atom must be recorded once and scheduled once (recorded %d, scheduled %d)" % (len(rec), len(sch))
+        ctx.ob(rule, w, "neighbour path: %s" % p.describe()[:160], ok,
+               "a bonded atom already reached is skipped; a new one is recorded as reached and put on the worklist"
+               + ("" if ok else " -- " + why), node=inner[0])
+    ctx.floor(rule, n, 2, "paths of the neighbour loop")
